@@ -103,5 +103,5 @@ CTX_HOOKS = [dict(c, prop="C04") for c in (UPD_START, UPD_END, ON_START, ON_END)
 CONTRACTS = [CALL, SAMPLER_ADD] + CTX_HOOKS
 ASSUMPTIONS = ["A-CLOCK: time.perf_counter is monotone (ghost clock); A-SLEEP: asyncio.sleep(d) returns no earlier than d later; A-REQ: the runner issues at least one wire request inside the request context and its start/end are clock readings taken during execute_single",
                "exact-real arithmetic"]
-NOT_DECIDED = ["the first request of a throttled task has scheduled time 0 and is measured as unthrottled (documented behaviour, encoded as such)", "execute_single's own result/error mapping (not yet under contract in this revision)"]
+NOT_DECIDED = ["the first request of a throttled task has scheduled time 0 and is measured as unthrottled (documented behaviour, encoded as such)", "execute_single's result/error mapping: under contract in C09"]
 TRUSTED = []
